@@ -199,6 +199,9 @@ func (Serializer) Unmarshal(buf []byte, m pilosa.Message) error {
 		if err != nil {
 			return errors.Wrap(err, "unmarshaling QueryResponse")
 		}
+		if err := validateQueryResults(msg.Results); err != nil {
+			return errors.Wrap(err, "unmarshaling QueryResponse")
+		}
 		decodeQueryResponse(msg, mt)
 		return nil
 	case *pilosa.ImportRequest:
@@ -737,6 +740,9 @@ func encodeTranslateKeysRequest(request *pilosa.TranslateKeysRequest) *internal.
 }
 
 func decodeResizeInstruction(ri *internal.ResizeInstruction, m *pilosa.ResizeInstruction) {
+	if ri == nil {
+		return
+	}
 	m.JobID = ri.JobID
 	m.Node = &pilosa.Node{}
 	decodeNode(ri.Node, m.Node)
@@ -758,6 +764,9 @@ func decodeResizeSources(srcs []*internal.ResizeSource, m []*pilosa.ResizeSource
 }
 
 func decodeResizeSource(rs *internal.ResizeSource, m *pilosa.ResizeSource) {
+	if rs == nil {
+		return
+	}
 	m.Node = &pilosa.Node{}
 	decodeNode(rs.Node, m.Node)
 	m.Index = rs.Index
@@ -767,6 +776,9 @@ func decodeResizeSource(rs *internal.ResizeSource, m *pilosa.ResizeSource) {
 }
 
 func decodeSchema(s *internal.Schema, m *pilosa.Schema) {
+	if s == nil {
+		return
+	}
 	m.Indexes = make([]*pilosa.IndexInfo, len(s.Indexes))
 	decodeIndexes(s.Indexes, m.Indexes)
 }
@@ -779,6 +791,9 @@ func decodeIndexes(idxs []*internal.Index, m []*pilosa.IndexInfo) {
 }
 
 func decodeIndex(idx *internal.Index, m *pilosa.IndexInfo) {
+	if idx == nil {
+		return
+	}
 	m.Name = idx.Name
 	m.Fields = make([]*pilosa.FieldInfo, len(idx.Fields))
 	decodeFields(idx.Fields, m.Fields)
@@ -792,6 +807,9 @@ func decodeFields(fs []*internal.Field, m []*pilosa.FieldInfo) {
 }
 
 func decodeField(f *internal.Field, m *pilosa.FieldInfo) {
+	if f == nil {
+		return
+	}
 	m.Name = f.Name
 	m.Options = pilosa.FieldOptions{}
 	decodeFieldOptions(f.Meta, &m.Options)
@@ -802,6 +820,9 @@ func decodeField(f *internal.Field, m *pilosa.FieldInfo) {
 }
 
 func decodeFieldOptions(options *internal.FieldOptions, m *pilosa.FieldOptions) {
+	if options == nil {
+		return
+	}
 	m.Type = options.Type
 	m.CacheType = options.CacheType
 	m.CacheSize = options.CacheSize
@@ -821,6 +842,9 @@ func decodeNodes(a []*internal.Node, m []*pilosa.Node) {
 }
 
 func decodeClusterStatus(cs *internal.ClusterStatus, m *pilosa.ClusterStatus) {
+	if cs == nil {
+		return
+	}
 	m.State = cs.State
 	m.ClusterID = cs.ClusterID
 	m.Nodes = make([]*pilosa.Node, len(cs.Nodes))
@@ -828,6 +852,9 @@ func decodeClusterStatus(cs *internal.ClusterStatus, m *pilosa.ClusterStatus) {
 }
 
 func decodeNode(node *internal.Node, m *pilosa.Node) {
+	if node == nil {
+		return
+	}
 	m.ID = node.ID
 	decodeURI(node.URI, &m.URI)
 	m.IsCoordinator = node.IsCoordinator
@@ -835,33 +862,51 @@ func decodeNode(node *internal.Node, m *pilosa.Node) {
 }
 
 func decodeURI(i *internal.URI, m *pilosa.URI) {
+	if i == nil {
+		return
+	}
 	m.Scheme = i.Scheme
 	m.Host = i.Host
 	m.Port = uint16(i.Port)
 }
 
 func decodeCreateShardMessage(pb *internal.CreateShardMessage, m *pilosa.CreateShardMessage) {
+	if pb == nil {
+		return
+	}
 	m.Index = pb.Index
 	m.Field = pb.Field
 	m.Shard = pb.Shard
 }
 
 func decodeCreateIndexMessage(pb *internal.CreateIndexMessage, m *pilosa.CreateIndexMessage) {
+	if pb == nil {
+		return
+	}
 	m.Index = pb.Index
 	m.Meta = &pilosa.IndexOptions{}
 	decodeIndexMeta(pb.Meta, m.Meta)
 }
 
 func decodeIndexMeta(pb *internal.IndexMeta, m *pilosa.IndexOptions) {
+	if pb == nil {
+		return
+	}
 	m.Keys = pb.Keys
 	m.TrackExistence = pb.TrackExistence
 }
 
 func decodeDeleteIndexMessage(pb *internal.DeleteIndexMessage, m *pilosa.DeleteIndexMessage) {
+	if pb == nil {
+		return
+	}
 	m.Index = pb.Index
 }
 
 func decodeCreateFieldMessage(pb *internal.CreateFieldMessage, m *pilosa.CreateFieldMessage) {
+	if pb == nil {
+		return
+	}
 	m.Index = pb.Index
 	m.Field = pb.Field
 	m.Meta = &pilosa.FieldOptions{}
@@ -869,29 +914,44 @@ func decodeCreateFieldMessage(pb *internal.CreateFieldMessage, m *pilosa.CreateF
 }
 
 func decodeDeleteFieldMessage(pb *internal.DeleteFieldMessage, m *pilosa.DeleteFieldMessage) {
+	if pb == nil {
+		return
+	}
 	m.Index = pb.Index
 	m.Field = pb.Field
 }
 
 func decodeDeleteAvailableShardMessage(pb *internal.DeleteAvailableShardMessage, m *pilosa.DeleteAvailableShardMessage) {
+	if pb == nil {
+		return
+	}
 	m.Index = pb.Index
 	m.Field = pb.Field
 	m.ShardID = pb.ShardID
 }
 
 func decodeCreateViewMessage(pb *internal.CreateViewMessage, m *pilosa.CreateViewMessage) {
+	if pb == nil {
+		return
+	}
 	m.Index = pb.Index
 	m.Field = pb.Field
 	m.View = pb.View
 }
 
 func decodeDeleteViewMessage(pb *internal.DeleteViewMessage, m *pilosa.DeleteViewMessage) {
+	if pb == nil {
+		return
+	}
 	m.Index = pb.Index
 	m.Field = pb.Field
 	m.View = pb.View
 }
 
 func decodeResizeInstructionComplete(pb *internal.ResizeInstructionComplete, m *pilosa.ResizeInstructionComplete) {
+	if pb == nil {
+		return
+	}
 	m.JobID = pb.JobID
 	m.Node = &pilosa.Node{}
 	decodeNode(pb.Node, m.Node)
@@ -899,27 +959,42 @@ func decodeResizeInstructionComplete(pb *internal.ResizeInstructionComplete, m *
 }
 
 func decodeSetCoordinatorMessage(pb *internal.SetCoordinatorMessage, m *pilosa.SetCoordinatorMessage) {
+	if pb == nil {
+		return
+	}
 	m.New = &pilosa.Node{}
 	decodeNode(pb.New, m.New)
 }
 
 func decodeUpdateCoordinatorMessage(pb *internal.UpdateCoordinatorMessage, m *pilosa.UpdateCoordinatorMessage) {
+	if pb == nil {
+		return
+	}
 	m.New = &pilosa.Node{}
 	decodeNode(pb.New, m.New)
 }
 
 func decodeNodeStateMessage(pb *internal.NodeStateMessage, m *pilosa.NodeStateMessage) {
+	if pb == nil {
+		return
+	}
 	m.NodeID = pb.NodeID
 	m.State = pb.State
 }
 
 func decodeNodeEventMessage(pb *internal.NodeEventMessage, m *pilosa.NodeEvent) {
+	if pb == nil {
+		return
+	}
 	m.Event = pilosa.NodeEventType(pb.Event)
 	m.Node = &pilosa.Node{}
 	decodeNode(pb.Node, m.Node)
 }
 
 func decodeNodeStatus(pb *internal.NodeStatus, m *pilosa.NodeStatus) {
+	if pb == nil {
+		return
+	}
 	m.Node = &pilosa.Node{}
 	m.Indexes = decodeIndexStatuses(pb.Indexes)
 	m.Schema = &pilosa.Schema{}
@@ -936,6 +1011,9 @@ func decodeIndexStatuses(a []*internal.IndexStatus) []*pilosa.IndexStatus {
 }
 
 func decodeIndexStatus(pb *internal.IndexStatus, m *pilosa.IndexStatus) {
+	if pb == nil {
+		return
+	}
 	m.Name = pb.Name
 	m.Fields = decodeFieldStatuses(pb.Fields)
 }
@@ -950,6 +1028,9 @@ func decodeFieldStatuses(a []*internal.FieldStatus) []*pilosa.FieldStatus {
 }
 
 func decodeFieldStatus(pb *internal.FieldStatus, m *pilosa.FieldStatus) {
+	if pb == nil {
+		return
+	}
 	m.Name = pb.Name
 	m.AvailableShards = roaring.NewBitmap(pb.AvailableShards...)
 }
@@ -957,6 +1038,9 @@ func decodeFieldStatus(pb *internal.FieldStatus, m *pilosa.FieldStatus) {
 func decodeRecalculateCaches(pb *internal.RecalculateCaches, m *pilosa.RecalculateCaches) {}
 
 func decodeQueryRequest(pb *internal.QueryRequest, m *pilosa.QueryRequest) {
+	if pb == nil {
+		return
+	}
 	m.Query = pb.Query
 	m.Shards = pb.Shards
 	m.ColumnAttrs = pb.ColumnAttrs
@@ -966,6 +1050,9 @@ func decodeQueryRequest(pb *internal.QueryRequest, m *pilosa.QueryRequest) {
 }
 
 func decodeImportRequest(pb *internal.ImportRequest, m *pilosa.ImportRequest) {
+	if pb == nil {
+		return
+	}
 	m.Index = pb.Index
 	m.Field = pb.Field
 	m.Shard = pb.Shard
@@ -977,6 +1064,9 @@ func decodeImportRequest(pb *internal.ImportRequest, m *pilosa.ImportRequest) {
 }
 
 func decodeImportValueRequest(pb *internal.ImportValueRequest, m *pilosa.ImportValueRequest) {
+	if pb == nil {
+		return
+	}
 	m.Index = pb.Index
 	m.Field = pb.Field
 	m.Shard = pb.Shard
@@ -986,6 +1076,9 @@ func decodeImportValueRequest(pb *internal.ImportValueRequest, m *pilosa.ImportV
 }
 
 func decodeImportRoaringRequest(pb *internal.ImportRoaringRequest, m *pilosa.ImportRoaringRequest) {
+	if pb == nil {
+		return
+	}
 	views := map[string][]byte{}
 	for _, view := range pb.Views {
 		views[view.Name] = view.Data
@@ -995,10 +1088,16 @@ func decodeImportRoaringRequest(pb *internal.ImportRoaringRequest, m *pilosa.Imp
 }
 
 func decodeImportResponse(pb *internal.ImportResponse, m *pilosa.ImportResponse) {
+	if pb == nil {
+		return
+	}
 	m.Err = pb.Err
 }
 
 func decodeBlockDataRequest(pb *internal.BlockDataRequest, m *pilosa.BlockDataRequest) {
+	if pb == nil {
+		return
+	}
 	m.Index = pb.Index
 	m.Field = pb.Field
 	m.View = pb.View
@@ -1007,11 +1106,17 @@ func decodeBlockDataRequest(pb *internal.BlockDataRequest, m *pilosa.BlockDataRe
 }
 
 func decodeBlockDataResponse(pb *internal.BlockDataResponse, m *pilosa.BlockDataResponse) {
+	if pb == nil {
+		return
+	}
 	m.RowIDs = pb.RowIDs
 	m.ColumnIDs = pb.ColumnIDs
 }
 
 func decodeQueryResponse(pb *internal.QueryResponse, m *pilosa.QueryResponse) {
+	if pb == nil {
+		return
+	}
 	m.ColumnAttrSets = make([]*pilosa.ColumnAttrSet, len(pb.ColumnAttrSets))
 	decodeColumnAttrSets(pb.ColumnAttrSets, m.ColumnAttrSets)
 	if pb.Err == "" {
@@ -1031,9 +1136,41 @@ func decodeColumnAttrSets(pb []*internal.ColumnAttrSet, m []*pilosa.ColumnAttrSe
 }
 
 func decodeColumnAttrSet(pb *internal.ColumnAttrSet, m *pilosa.ColumnAttrSet) {
+	if pb == nil {
+		return
+	}
 	m.ID = pb.ID
 	m.Key = pb.Key
 	m.Attrs = decodeAttrs(pb.Attrs)
+}
+
+// validateQueryResults rejects results whose payload does not match their
+// declared type; decodeQueryResult assumes well-formed results.
+func validateQueryResults(pb []*internal.QueryResult) error {
+	for _, r := range pb {
+		if r == nil {
+			return errors.New("nil query result")
+		}
+		switch r.Type {
+		case queryResultTypeRow, queryResultTypePairs, queryResultTypeUint64, queryResultTypeBool,
+			queryResultTypeNil, queryResultTypeRowIDs, queryResultTypeGroupCounts:
+		case queryResultTypeValCount:
+			if r.ValCount == nil {
+				return errors.New("query result of type ValCount without a value")
+			}
+		case queryResultTypeRowIdentifiers:
+			if r.RowIdentifiers == nil {
+				return errors.New("query result of type RowIdentifiers without a value")
+			}
+		case queryResultTypePair:
+			if len(r.Pairs) == 0 {
+				return errors.New("query result of type Pair without a pair")
+			}
+		default:
+			return fmt.Errorf("unknown query result type: %d", r.Type)
+		}
+	}
+	return nil
 }
 
 func decodeQueryResults(pb []*internal.QueryResult, m []interface{}) {
@@ -1043,12 +1180,18 @@ func decodeQueryResults(pb []*internal.QueryResult, m []interface{}) {
 }
 
 func decodeTranslateKeysRequest(pb *internal.TranslateKeysRequest, m *pilosa.TranslateKeysRequest) {
+	if pb == nil {
+		return
+	}
 	m.Index = pb.Index
 	m.Field = pb.Field
 	m.Keys = pb.Keys
 }
 
 func decodeTranslateKeysResponse(pb *internal.TranslateKeysResponse, m *pilosa.TranslateKeysResponse) {
+	if pb == nil {
+		return
+	}
 	m.IDs = pb.IDs
 }
 
